@@ -116,6 +116,8 @@ fn run_seq_case(rep: &mut Report, args: &Args, case_seed: u64, n_ops: usize) {
     let mut reads_checked = 0u64;
     let mut stale_window_reads = 0u64; // sequential reads of records flushed after this reader last filled its cache
     let mut compression = false;
+    let (mut raw_straddling, mut raw_below) = (0u64, 0u64);
+    let raw_file = std::fs::File::open(&path).expect("open segment file");
     rep.evaluations += 1;
 
     macro_rules! viol {
@@ -289,8 +291,42 @@ fn run_seq_case(rep: &mut Report, args: &Args, case_seed: u64, n_ops: usize) {
                 }
             }
         }
+        // raw range reads (Reader::read_bytes, the block-cache path of the store): a range that ends beyond the
+        // flushed offset is refused, a range below it returns the file's bytes
+        if rng.chance(1, 3) {
+            use std::os::unix::fs::FileExt;
+            let rk = rng.usize_below(n_readers);
+            let fl = m.flushed;
+            let max_len = if rng.chance(1, 4) { 70_000 } else { 96 };
+            let len = 1 + rng.usize_below(max_len);
+            let mut buf = vec![0u8; len];
+            // (a) starts at or below the flushed offset, ends beyond it
+            let off = fl.saturating_sub(rng.below(len as u64));
+            if off + len as u64 > fl {
+                raw_straddling += 1;
+                if readers[rk].read_bytes(off, &mut buf).is_ok() {
+                    viol!("C18:read_bytes:range-ends-beyond-flushed".to_string(), format!("read_bytes({off}, {len}) via reader {rk} returned Ok although the flushed offset is {fl} (write offset {})", m.write_offset));
+                }
+            }
+            // (b) completely below
+            if fl > start + 1 {
+                let len = (len as u64).min(fl - start) as usize;
+                let off = start + rng.below(fl - start - len as u64 + 1);
+                let mut buf = vec![0u8; len];
+                let mut want = vec![0u8; len];
+                raw_file.read_exact_at(&mut want, off).expect("pread");
+                raw_below += 1;
+                match readers[rk].read_bytes(off, &mut buf) {
+                    Ok(()) if buf == want => {}
+                    Ok(()) => viol!("C18:read_bytes:wrong-bytes-below-flushed".to_string(), format!("read_bytes({off}, {len}) via reader {rk} differs from the file (flushed offset {fl})")),
+                    Err(e) => viol!(format!("C18:read_bytes:refused-below-flushed:{}", err_class(&e)), format!("read_bytes({off}, {len}) via reader {rk} failed although it ends at or below the flushed offset {fl}: {e}")),
+                }
+            }
+        }
         if rep.violations.len() > 12 { break; }
     }
+    rep.count("raw_range_reads_straddling_flushed", raw_straddling);
+    rep.count("raw_range_reads_below_flushed", raw_below);
     rep.count("reads_checked", reads_checked);
     rep.count("set_len_ops", m.set_len_count);
     rep.count("sequential_reads_through_reader_with_older_cache", stale_window_reads);
